@@ -12,6 +12,7 @@ import (
 	plrt "github.com/GuanceCloud/platypus/pkg/engine/runtime"
 	"github.com/GuanceCloud/platypus/pkg/inimpl/guancecloud/input"
 
+	"verif/mc/internal/deephash"
 	"verif/mc/internal/drv"
 	"verif/mc/internal/ref"
 	"verif/mc/internal/rt"
@@ -28,20 +29,15 @@ type c10Case struct {
 	Probe  string   `json:"probe,omitempty"`
 }
 
-func clonePoint(p *input.Point) *input.Point {
-	c := &input.Point{Measurement: p.Measurement, Time: p.Time, Drop: p.Drop,
-		Tags: map[string]string{}, Fields: map[string]any{}, Meta: map[string]*input.TFMeta{}}
-	for k, v := range p.Tags {
-		c.Tags[k] = v
-	}
-	for k, v := range p.Fields {
-		c.Fields[k] = v
-	}
-	for k, v := range p.Meta {
-		m := *v
-		c.Meta[k] = &m
-	}
-	return c
+// clonePoint: a structure-preserving deep copy of the whole object (unexported fields and sharing
+// between index entries included), so that anything the implementation keeps inside a point is part of the
+// state the search carries from one event to the next.
+func clonePoint(p *input.Point) *input.Point { return deepCopy(p) }
+
+// c10Hidden: a structural hash of everything inside the point object (also what canonState does not
+// render), so that two states are merged only if the whole objects are alike.
+func c10Hidden(p *input.Point) uint64 {
+	return deephash.New("github.com/GuanceCloud/platypus").Hash(map[string]any{"pt": p})
 }
 
 // canonState includes the key index (Meta), unlike drv.CanonPoint.
@@ -433,7 +429,7 @@ func c10Run(w *run.Worker) {
 				if n.rp == nil {
 					key += "|untracked"
 				}
-				hk := hash2(key, "", ii)
+				hk := hash2(key, "", ii) ^ c10Hidden(n.pt)
 				prev, met := seen[hk]
 				if met && (prev == 255 || int(prev) <= n.depth) {
 					continue // met at this depth or nearer the root already, or met before and found corrupted
@@ -469,7 +465,7 @@ func c10Run(w *run.Worker) {
 						if nn.rp == nil {
 							k2 += "|untracked"
 						}
-						h2 := hash2(k2, "", ii)
+						h2 := hash2(k2, "", ii) ^ c10Hidden(nn.pt)
 						if _, met := seen[h2]; !met {
 							seen[h2] = uint8(nn.depth)
 							if !check(nn, ii) {
@@ -561,7 +557,7 @@ func init() {
 	run.Register(&run.Check{
 		ID:    "C10",
 		Level: "model_checking",
-		Rule: "explicit-state search: states = real input.Point values (measurement, time, tags, fields with Go types AND the key index), initial states = 4 points over {a field, t1 tag, message, small-int/float32 fields} covering every supported field type; " +
+		Rule: "explicit-state search: states = real input.Point objects, cloned whole (unexported fields and sharing between index entries included) and merged only when the whole objects hash alike (measurement, time, tags, fields with Go types AND the key index), initial states = 4 points over {a field, t1 tag, message, small-int/float32 fields} covering every supported field type; " +
 			"transitions = 139 scripts (one builtin call each, incl. the `_` spelling) run by the real engine on a deep clone (add_key x 5 keys x 7 value kinds, add_key(k), set_tag(k[, literal | attribute expression | other key]), add_key(k, attribute expression), drop_key, rename over all ordered key pairs, cast x 4 types, set_measurement(k,true), default_time, uppercase, grok writing typed captures); " +
 			"breadth-first to depth 3 (thorough: a fourth level over the events about three of the keys) with depth-aware de-duplication on the canonical state (a state is expanded again when met nearer the root); in every state: I1 every output key reads back (Point.Get and a script read) with exactly the stored value and type, I2 no key is tag and field, I3 field types, I4 no read returns a value the output lacks, I5 every output key can be dropped and renamed (one-step look-ahead), I6 no two keys share one (pooled) index entry object, I7 a plain-expression read of the event's key inside the event script, directly after the builtin, gives what the point then holds; plus agreement with the reference point model",
 		Assumptions: []string{"level 1 is sharded across workers, de-duplication is per worker (states reached in several subtrees are checked more than once)"},
